@@ -82,7 +82,10 @@ pub fn new_boxed<T: MaybeDynSized<Metadata = usize> + ?Sized>(
 /// Clones a [`MaybeDynSized`] by calling [`new_boxed`].
 #[must_use]
 pub fn clone_dyn<T: MaybeDynSized<Metadata = usize> + ?Sized>(tag: &T) -> Box<T> {
-    new_boxed(tag.header().clone(), &[tag.payload()])
+    // `payload()` also covers the alignment padding after the tag's last
+    // field, which is not part of the tag itself.
+    let payload_len = tag.header().payload_len();
+    new_boxed(tag.header().clone(), &[&tag.payload()[..payload_len]])
 }
 
 #[cfg(test)]
